@@ -43,7 +43,7 @@ def run_cli(spec, tier, seed):
     import tempfile
     import configparser
     import shutil
-    from hv import scen, cli
+    from hv import scen, cli, hx
     from hv.monitors.c20 import write_ini
     res = Result()
     year = spec['year']
@@ -113,6 +113,50 @@ def run_cli(spec, tier, seed):
                         res.violation('C05|cli|form-order|diagnostics', f'{year} {fam} [{name}]: the printed diagnostics depend on the order of the --form options, e.g. {d}', rp)
                     elif o[4] != base[4]:
                         res.violation('C05|cli|form-order|solution', f'{year} {fam} [{name}]: the written solution depends on the order of the --form options: {_mapdiff(base[4] or {}, o[4] or {})}', rp)
+        # the same values read from the file or typed at the real prompt, including text a prompt might be tempted to tidy up
+        from hv.monitors import c20
+        lookup = c20.InputLookup(year)
+        AWKWARD = ['"Teacher"', "'quoted'", '(in brackets)', 'two  blanks', '"a" and "b"', '[x]', 'UPPER lower', '#1 Plumber', 'semi;colon']
+        for k in range(spec['n']):
+            fam = rng.choice(['F0', 'F2', 'F8'])
+            p = scen.Persona(year, fam, f'c05typed:{seed}:{k}')
+            scen.solve_persona(p)
+            ans = dict(p.answers)
+            texts = [q for q in sorted(ans) if isinstance(lookup.get(q), hx.inputs.StringInput) and not isinstance(lookup.get(q), (hx.inputs.RegexInput, hx.inputs.SSNInput))
+                     and q.split('.')[1] in ('occupation', 'spouse_occupation', 'box_c', 'payer', 'dependent_0_relationship', 'city', 'home_address')]
+            if not texts:
+                continue
+            for j, q in enumerate(texts):
+                ans[q] = AWKWARD[(j + k) % len(AWKWARD)]
+            typed = texts + [q for q in sorted(ans) if q not in texts][:: 7]
+            pf, pt = os.path.join(tmp, 'file.ini'), os.path.join(tmp, 'typed.ini')
+            sf, st_ = os.path.join(tmp, 'sf.ini'), os.path.join(tmp, 'st.ini')
+            for x in (sf, st_):
+                if os.path.exists(x):
+                    os.remove(x)
+            write_ini(pf, ans)
+            write_ini(pt, {q: v for q, v in ans.items() if q not in typed})
+            args = ['solve', pf, '--year', str(year), '--solution', sf]
+            for f in p.forms():
+                args += ['--form', f]
+            r1 = cli.run_cli(args)
+            q2 = scen.Persona(year, fam, p.key, overrides=ans)
+
+            def a(name, q2=q2):
+                return q2.answer(lookup.get(name))
+            a.lookup = lookup
+            r2, given = c20.session(year, p.forms(), pt, a, extra_args=['--solution', st_])
+            res.evaluations += 2
+            res.count('cli_file_vs_typed')
+            if r1.exc is not None or r2.exc is not None:
+                if type(r1.exc) is not type(r2.exc):
+                    res.violation('C05|cli|file-vs-typed|abort', f'{year} {fam}: all in the file ended with {type(r1.exc).__name__}, {len(typed)} of them typed ended with {type(r2.exc).__name__}',
+                                  {'engine': 'cli', 'persona': p.describe(), 'typed': typed[:8], 'shard': spec})
+                continue
+            m1, m2 = solution(sf), solution(st_)
+            if m1 != m2:
+                res.violation('C05|cli|file-vs-typed|solution', f'{year} {fam}: the same values give a different solution when {len(typed)} of them are typed at the prompt instead of read from the file: {_mapdiff(m1 or {}, m2 or {})}',
+                              {'engine': 'cli', 'persona': p.describe(), 'typed': typed[:8], 'shard': spec})
     finally:
         shutil.rmtree(tmp, ignore_errors=True)
     return res
